@@ -206,7 +206,9 @@ static void build_meta()
         return b;
     };
     g_meta.push_back({"", true, nullptr, nullptr});
-    for(std::string b : {blk({"a"}), blk({"ab"}), blk({"a="}), blk({"a=b"}), blk({"a", "b"}), blk({"abc="}), blk({"ab=cd"}), blk({"a=b", "c"}), blk({"a=b:c", "d"})}) {
+    for(std::string b : {blk({"a"}), blk({"ab"}), blk({"a="}), blk({"a=b"}), blk({"a", "b"}), blk({"abc="}), blk({"ab=cd"}), blk({"a=b", "c"}), blk({"a=b:c", "d"}),
+                          // free text behind a property (rSpecial writes it) and behind a value: the block goes on after it
+                          std::string(":s\0doc\0:u\0=H\0\0", 14), std::string(":d\0=x\0y z\0:u\0=H\0\0", 17)}) {
         MetaBlock m; m.bytes = b; m.null = false;
         m.mem = (char *)malloc(8 + b.size() + 8); memset(m.mem, 0x7E, 8 + b.size() + 8); memcpy(m.mem + 8, b.data(), b.size());   // known bytes on both sides
         m.ptr = m.mem + 8;
@@ -292,8 +294,8 @@ struct Query { std::string loc; int kind; };   // kind 0: the table under test, 
 static void part_search(int maxk)
 {
     if(!replay_part("C|")) return;
-    static const char *names[7] = {"a", "ab", "a/", "a/b", "a/bc:i", "b", "b/"};
-    const int NN = 7;
+    static const char *names[9] = {"a", "ab", "a/", "a/b", "a/bc:i", "b", "b/", "a::f", "a0"};      // the last two: a spec'd leaf next to names that continue with '/', '0'
+    const int NN = 9;
     const int NM = (int)g_meta.size();
     uint64_t tix = 0;
     auto do_table = [&](const std::vector<Child> &table, const std::string &tprefix, int k) {
@@ -455,7 +457,7 @@ int main(int argc, char **argv)
     vp::bound("collapsePath", "all absolute paths of 1.." + std::to_string(maxn) + " components over {a, bb, .., c.., instrument, a_component_of_32_characters_xyz}, with and without trailing '/'");
     vp::bound("apropos", "root tables = ordered selections of 0.." + std::to_string(max_root) + " of 11 entries (5 leaves a ab:i b::f c/d: e#2:i, 6 sub-trees s/ t/u/ v#2/ a/ w/::i f#2/:f), every sub-tree with every ordered selection of 0.." +
                          std::to_string(max_sub) + " of {x, xy:i, y::i:f, z/{w k#2::i}}; trees violating the side condition are skipped");
-    vp::bound("path_search", "tables = all sequences of 0.." + std::to_string(maxk) + " names over {a ab a/ a/b a/bc:i b b/} (duplicates allowed), metadata rotating over 10 blocks of 0..11 bytes; locations '' '/' '/s/' '/s' 's/' '/leaf' '/nope'; "
+    vp::bound("path_search", "tables = all sequences of 0.." + std::to_string(maxk) + " names over {a ab a/ a/b a/bc:i b b/ a::f a0} (duplicates allowed), metadata rotating over 12 blocks of 0..17 bytes (two with free text inside); locations '' '/' '/s/' '/s' 's/' '/leaf' '/nope'; "
                              "needles = every prefix of every name + '' + absent; 3 options x reply_with_query x array/message form");
     part_collapse(maxn);
     part_apropos(max_root, max_sub);
